@@ -22,7 +22,10 @@ if [ "$1" = replay ] && grep -q '"runner": *"checked"' "$2" 2>/dev/null; then bu
 BIN="$ROOT/sim/target/release/simctl"
 cd "$ROOT" || exit 2
 case "$1" in
-    setup) exit 0 ;;
+    setup)
+        # warm the Miri build of the simulator (L4 tier of C01); optional tool
+        (cd "$ROOT/sim" && cargo +nightly miri run --offline --no-default-features -- help >/dev/null 2>&1) || true
+        exit 0 ;;
     replay) exec "$BIN" replay "$2" ;;
     selftest) shift; exec "$BIN" selftest "$@" --root "$ROOT" ;;
     *) exec "$BIN" check "$1" --tier "${2:-${VERIF_TIER:-quick}}" --root "$ROOT" ;;
